@@ -1,6 +1,7 @@
 package worlds
 
 import (
+	"encoding/json"
 	"fmt"
 	"runtime/debug"
 	"sort"
@@ -28,6 +29,7 @@ type lwProfile struct {
 	Search      bool // include searches in the battery
 	System      bool // drive a sys.System instead of bare locations (set by cfg too)
 	Values      bool // judge ProcessEvent().Values against the rules' constant action values
+	Capacity    bool // StateSize never exceeds MaxFacts after a successful public add
 	Lifecycle   bool // RuleEnabled agrees with the model; battery also runs in disabled locations
 }
 
@@ -45,6 +47,7 @@ type lw struct {
 	genIds map[string][]string // generated ids per location
 	allGen map[string]bool
 	f0     int64 // injected storage failures fired before the current operation
+	lastAddOK bool // the add operation just executed returned success
 	// ghosts (per location): canonical bodies of generated-id adds that failed
 	// or were interrupted half-way; an unknown id holding such a body is a
 	// don't-care (the engine chose the id, the caller never learnt it)
@@ -289,7 +292,7 @@ func applyModelOp(m *h.Model, op h.Op) *h.Item {
 		}
 	case "setparents":
 		l := m.Loc(op.Loc)
-		if m.Enabled(l) {
+		if m.Enabled(l) && m.CanWrite(l, prot(op)) {
 			ps := make([]interface{}, len(op.L))
 			for i, p := range op.L {
 				ps[i] = p
@@ -590,6 +593,7 @@ func (w *lw) step(op h.Op) {
 		var err error
 		w.call("AddFact", func() { id, err = loc.AddFact(h.NewCtx(prot(op)), op.Id, core.Map(op.Map())) })
 		w.tr("addfact %s %s -> %q %s", op.Id, h.Canon(body), id, isErr(err))
+		w.lastAddOK = err == nil
 		if w.faulted(op, err) {
 			w.after(op)
 			return
@@ -684,6 +688,7 @@ func (w *lw) step(op h.Op) {
 		var err error
 		w.call("AddRule", func() { id, err = loc.AddRule(h.NewCtx(prot(op)), op.Id, core.Map(op.Map())) })
 		w.tr("addrule %s %s -> %q %s", op.Id, h.Canon(body), id, isErr(err))
+		w.lastAddOK = err == nil
 		if w.faulted(op, err) {
 			w.after(op)
 			return
@@ -764,6 +769,9 @@ func (w *lw) step(op h.Op) {
 		l := m.Loc(op.Loc)
 		if !m.Enabled(l) {
 			w.agree(op, err, &h.ErrModel{Why: "location disabled"}, "disabled")
+		} else if !m.CanWrite(l, prot(op)) {
+			// the parent set is protected like facts and rules
+			w.agree(op, err, &h.ErrModel{Why: "write not allowed"}, "protected")
 		} else if err == nil {
 			ps := make([]interface{}, len(op.L))
 			for i, p := range op.L {
@@ -807,6 +815,13 @@ func (w *lw) step(op h.Op) {
 			w.fail("reload-failed", "reload", "rebuilding locations from storage failed: %v", err)
 		}
 		w.res.Count("reloads", 1)
+		// the read-only switch is a process-level setting of the embedding
+		// application, not stored state: the application applies it again
+		for ln, l := range m.Locs {
+			if l.ReadOnly {
+				w.eng.Loc(ln).SetReadOnly(h.NewCtx(h.Prot{}), true)
+			}
+		}
 	case "setprop":
 		// location-level property (readKey, writeKey, enabled, …)
 		loc := w.eng.Loc(op.Loc)
@@ -826,8 +841,118 @@ func (w *lw) step(op h.Op) {
 		loc.SetReadOnly(h.NewCtx(h.Prot{}), op.B)
 		m.Loc(op.Loc).ReadOnly = op.B
 		w.tr("readonly %v", op.B)
+	case "getrule":
+		loc := w.eng.Loc(op.Loc)
+		var got core.Map
+		var err error
+		w.call("GetRule", func() { got, err = loc.GetRule(h.NewCtx(prot(op)), op.Id) })
+		w.tr("getrule %s -> %s", op.Id, isErr(err))
+		if !m.IsUncertain(op.Loc, op.Id) {
+			it, merr := m.Get(op.Loc, op.Id, prot(op))
+			if merr == nil && h.RuleOf(it) == nil {
+				merr = &h.ErrModel{Why: "not a rule"}
+			}
+			w.agree(op, err, merr, "getrule")
+			if err == nil && h.CanonSet(stripId(got)) != h.CanonSet(h.RuleOf(it)) {
+				w.fail("get-content", "getrule", "GetRule(%s/%s) = %s, model has %s", op.Loc, op.Id, h.Canon(map[string]interface{}(got)), h.Canon(h.RuleOf(it)))
+			}
+		}
+		m.Confirm(op.Loc, op.Id)
+	case "listrules":
+		loc := w.eng.Loc(op.Loc)
+		var got []string
+		var err error
+		w.call("ListRules", func() { got, err = loc.ListRules(h.NewCtx(prot(op)), op.B) })
+		w.tr("listrules -> %v %s", got, isErr(err))
+		want, merr := m.Search(op.Loc, map[string]interface{}{"rule": "?rule"}, op.B, prot(op))
+		if !h.DontCare(merr) {
+			w.agree(op, err, merr, "listrules")
+		}
+		if err == nil && merr == nil {
+			gm := map[string][]string{}
+			for _, id := range got {
+				gm[id] = []string{"x"}
+			}
+			wm := map[string][]string{}
+			for id := range want {
+				wm[id] = []string{"x"}
+			}
+			skip := func(id string) bool { return w.uncertainAnywhere(op.Loc, id, op.B) }
+			if d := h.DiffSets(gm, wm, skip); d != "" {
+				w.fail("listrules-mismatch", "listrules:"+diffKind(d), "ListRules(%s, inherited=%v): %s", op.Loc, op.B, d)
+			}
+		}
+	case "searchrules":
+		loc := w.eng.Loc(op.Loc)
+		var got map[string]*core.Rule
+		var err error
+		w.call("SearchRules", func() { got, err = loc.SearchRules(h.NewCtx(prot(op)), core.Map(op.Map()), op.B) })
+		w.tr("searchrules -> %v %s", h.ObsRuleIds(got), isErr(err))
+		want, merr := m.SearchRules(op.Loc, op.Map(), op.B, prot(op))
+		if !h.DontCare(merr) && !(err != nil && strings.Contains(err.Error(), "is not sortable")) {
+			w.agree(op, err, merr, "searchrules")
+			if err == nil {
+				gm := map[string][]string{}
+				for id := range got {
+					gm[id] = []string{"x"}
+				}
+				wm := map[string][]string{}
+				for id := range want {
+					wm[id] = []string{"x"}
+				}
+				skip := func(id string) bool { return w.uncertainAnywhere(op.Loc, id, op.B) }
+				if d := h.DiffSets(gm, wm, skip); d != "" {
+					w.fail("searchrules-mismatch", "searchrules:"+diffKind(d), "SearchRules(%s, %s, inherited=%v): %s", op.Loc, h.Canon(op.J), op.B, d)
+				}
+			}
+		}
+	case "statesize":
+		loc := w.eng.Loc(op.Loc)
+		var n int
+		var err error
+		w.call("StateSize", func() { n, err = loc.StateSize(h.NewCtx(prot(op))) })
+		w.tr("statesize -> %d %s", n, isErr(err))
+		l := m.Loc(op.Loc)
+		var merr error
+		if !m.CanRead(l, prot(op)) {
+			merr = &h.ErrModel{Why: "read not allowed"}
+		}
+		w.agree(op, err, merr, "statesize")
+	case "query":
+		// a single-pattern query: reveals facts like an inherited search
+		loc := w.eng.Loc(op.Loc)
+		var qr *core.QueryResult
+		var err error
+		q := map[string]interface{}{"pattern": op.J}
+		w.call("Query", func() { qr, err = loc.Query(h.NewCtx(prot(op)), h.Canon(q)) })
+		w.tr("query %s -> %s", h.Canon(q), isErr(err))
+		want, merr := m.Search(op.Loc, op.Map(), true, prot(op))
+		if h.DontCare(merr) {
+			break
+		}
+		if err != nil && merr == nil && strings.Contains(err.Error(), "No terms given") {
+			break // known finding of C02 (indexed state refuses term-less patterns)
+		}
+		w.agree(op, err, merr, "query")
+		if err == nil {
+			var got, exp []string
+			for _, bs := range qr.Bss {
+				got = append(got, h.CanonSet(map[string]interface{}(bs)))
+			}
+			unc := false
+			for id, bss := range want {
+				if w.uncertainAnywhere(op.Loc, id, true) {
+					unc = true
+				}
+				exp = append(exp, bss...)
+			}
+			if !unc && len(m.UncBy[op.Loc]) == 0 && h.MultisetKey(got) != h.MultisetKey(exp) {
+				w.fail("query-mismatch", "query:pattern", "Query(%s, %s) = %v, expected %v", op.Loc, h.Canon(q), got, exp)
+			}
+		}
 	case "event":
-		w.checkDispatch(op.Loc, op.Map(), prot(op), op)
+		want := w.checkDispatch(op.Loc, op.Map(), prot(op), op)
+		w.applyActionEffects(op, want)
 	default:
 		panic("harness: unknown op " + op.K)
 	}
@@ -1062,7 +1187,7 @@ func (w *lw) checkSearch(locName string, pattern map[string]interface{}, inherit
 		return
 	}
 	want, merr := w.model.Search(locName, pattern, inherited, p)
-	if me, ok := merr.(*h.ErrModel); ok && strings.HasPrefix(me.Why, "matcher:") {
+	if h.DontCare(merr) {
 		// the pattern is outside the documented fragment (the matcher itself
 		// refuses it): whether the engine notices depends on which facts it
 		// tries; the statements leave this open
@@ -1137,7 +1262,126 @@ func (w *lw) uncertainAnywhere(loc, id string, inherited bool) bool {
 	return false
 }
 
-func (w *lw) checkDispatch(locName string, event map[string]interface{}, p h.Prot, op h.Op) {
+func jsonUnmarshal(js string, v interface{}) error { return json.Unmarshal([]byte(js), v) }
+
+// actOps extracts the operation list an action performs from its code: the
+// generator writes actions as Env.* calls preceded by /*ops:<json>*/.
+func actOps(code string) []h.Op {
+	i := strings.Index(code, "/*ops:")
+	j := strings.Index(code, "*/")
+	if i < 0 || j < i {
+		return nil
+	}
+	var ops []h.Op
+	if err := jsonUnmarshal(code[i+6:j], &ops); err != nil {
+		return nil
+	}
+	return ops
+}
+
+// ActionCode renders an operation list as an in-process JavaScript action.
+func ActionCode(ops []h.Op, value string) string {
+	var b strings.Builder
+	b.WriteString("/*ops:" + h.Canon(ops) + "*/ ")
+	for _, o := range ops {
+		switch o.K {
+		case "addfact":
+			fmt.Fprintf(&b, "Env.AddFact(%s, %s); ", h.Canon(o.Id), h.Canon(o.J))
+		case "remfact":
+			fmt.Fprintf(&b, "Env.RemFact(%s); ", h.Canon(o.Id))
+		case "addrule":
+			fmt.Fprintf(&b, "Env.AddRule(%s, %s); ", h.Canon(o.Id), h.Canon(o.J))
+		case "remrule":
+			fmt.Fprintf(&b, "Env.RemRule(%s); ", h.Canon(o.Id))
+		case "search":
+			fmt.Fprintf(&b, "Env.Search(%s); ", h.Canon(o.J))
+		}
+	}
+	fmt.Fprintf(&b, "'%s'", value)
+	return b.String()
+}
+
+// applyActionEffects applies to the model what the actions of the dispatched
+// rules do (the generator keeps the ids touched by different rules disjoint,
+// so the order in which rules run does not matter).
+func (w *lw) applyActionEffects(op h.Op, want map[string][]string) {
+	if want == nil {
+		return
+	}
+	ids := make([]string, 0, len(want))
+	for id := range want {
+		ids = append(ids, id)
+	}
+	sort.Strings(ids)
+	names, _ := w.model.Ancestors(op.Loc)
+	for _, id := range ids {
+		var rule map[string]interface{}
+		for _, n := range names {
+			if it, ok := w.model.Loc(n).Items[id]; ok && h.RuleOf(it) != nil {
+				rule = h.RuleOf(it)
+			}
+		}
+		if rule == nil {
+			continue
+		}
+		var acts []interface{}
+		if a, ok := rule["action"]; ok {
+			acts = append(acts, a)
+		}
+		if as, ok := rule["actions"].([]interface{}); ok {
+			acts = append(acts, as...)
+		}
+		for range want[id] {
+			for _, a := range acts {
+				am, _ := a.(map[string]interface{})
+				code, _ := am["code"].(string)
+				for _, sub := range actOps(code) {
+					sub.Loc = op.Loc
+					sub.RK, sub.WK = op.RK, op.WK
+					if !w.applyActOp(sub) {
+						break // the script threw: the rest of this action does not run
+					}
+				}
+			}
+		}
+	}
+}
+
+// applyActOp applies one action-issued operation to the model; false = refused.
+func (w *lw) applyActOp(sub h.Op) bool {
+	m := w.model
+	switch sub.K {
+	case "addfact":
+		l := m.Loc(sub.Loc)
+		if m.CountLive(l) >= m.MaxFacts {
+			return false
+		}
+		_, _, _, err := m.AddFact(sub.Loc, sub.Id, sub.Map(), prot(sub))
+		return err == nil
+	case "addrule":
+		l := m.Loc(sub.Loc)
+		if m.CountLive(l) >= m.MaxFacts {
+			return false
+		}
+		_, _, _, err := m.AddRule(sub.Loc, sub.Id, sub.Map(), prot(sub))
+		return err == nil
+	case "remfact":
+		_, _, err := m.RemFact(sub.Loc, sub.Id, prot(sub))
+		return err == nil
+	case "remrule":
+		_, _, err := m.RemFact(sub.Loc, sub.Id, prot(sub))
+		if err == nil {
+			m.RemRaw(sub.Loc, h.PropId(sub.Id, "disabled"))
+		}
+		return err == nil
+	case "search":
+		_, err := m.Search(sub.Loc, sub.Map(), true, prot(sub))
+		return err == nil
+	}
+	return true
+}
+
+func (w *lw) checkDispatch(locName string, event map[string]interface{}, p h.Prot, op h.Op) (dispatched map[string][]string) {
 	loc := w.eng.Loc(locName)
 	var fr *core.FindRules
 	var cond *core.Condition
@@ -1147,7 +1391,7 @@ func (w *lw) checkDispatch(locName string, event map[string]interface{}, p h.Pro
 		return
 	}
 	want, merr := w.model.Dispatch(locName, event, p)
-	if me, ok := merr.(*h.ErrModel); ok && strings.HasPrefix(me.Why, "matcher:") {
+	if h.DontCare(merr) {
 		return
 	}
 	failed := cond != nil
@@ -1160,8 +1404,9 @@ func (w *lw) checkDispatch(locName string, event map[string]interface{}, p h.Pro
 		w.fail("dispatch-accepted", "event", "ProcessEvent(%s, %s) succeeded; the model refuses (%v)", locName, h.Canon(event), merr)
 	}
 	if failed {
-		return
+		return nil
 	}
+	dispatched = want
 	got := h.ObsDispatch(fr)
 	skip := func(id string) bool {
 		return w.uncertainAnywhere(locName, id, true) || w.model.IsUncertain(locName, h.PropId(id, "disabled"))
@@ -1202,6 +1447,7 @@ func (w *lw) checkDispatch(locName string, event map[string]interface{}, p h.Pro
 	if len(want) > 0 {
 		w.res.Nontrivial = append(w.res.Nontrivial, "dispatch|"+h.Canon(event)+"|"+w.model.StateKey())
 	}
+	return
 }
 
 // constActionValues returns the canonical values of a rule's actions when
@@ -1395,6 +1641,14 @@ func (w *lw) after(op h.Op) {
 		}
 		if w.prof.CheckReload {
 			w.checkReload(ln, p)
+		}
+	}
+	if w.prof.Capacity && (op.K == "addfact" || op.K == "addrule") && w.lastAddOK {
+		loc := w.eng.Loc(op.Loc)
+		l := w.model.Loc(op.Loc)
+		n, err := loc.StateSize(h.NewCtx(h.Prot{RK: w.model.ReadKeyOf(l)}))
+		if err == nil && n > w.model.MaxFacts {
+			w.fail("capacity-exceeded", "statesize", "after %s the location holds %d facts plus rules, MaxFacts is %d", op.K, n, w.model.MaxFacts)
 		}
 	}
 	w.res.Nontrivial = append(w.res.Nontrivial, "state|"+op.K+"|"+w.model.StateKey())
